@@ -71,7 +71,8 @@ def materialize(world, scratch, vcf_name="in.vcf", phased_truth=False, tag="PS")
                 if g is None:
                     calls.append({"GT": "./."})
                 elif len(set(g)) == 1 or not phased_truth or len(g) != 2:
-                    calls.append({"GT": "/".join(map(str, sorted(g)))})
+                    # "gt_spelling": "desc" writes unphased genotypes as 1/0, "mixed" does so for every other variant (legal, and what some callers emit)
+                    calls.append({"GT": "/".join(map(str, sorted(g, reverse=world.get("gt_spelling") == "desc" or (world.get("gt_spelling") == "mixed" and vi % 2 == 0))))})
                 else:
                     blk = world.get("truth_blocks", {}).get(s, {}).get(c["name"])
                     b = blk[vi] if blk else 0
